@@ -1,6 +1,6 @@
 (* C07 — failures and panics are contained in their iteration and classified
    correctly. Only property theorems; proofs are in Proofs/TestingTProofs.v. *)
-From F1 Require Import Base.Prelude Model.TestingT Proofs.TestingTProofs.
+From F1 Require Import Base.Prelude Model.TestingT Proofs.TestingTProofs Proofs.TestingTConc.
 
 (* An iteration is recorded failed iff its body marks failure: it contains
    Fail, FailNow (Fatal, failed assertion) or a panic with any value. *)
@@ -34,6 +34,23 @@ Proof.
   apply map_ext. intros b. unfold iter_outcome. apply (C07_classification tab t_new b).
 Qed.
 Print Assumptions C07_worker_outcomes.
+
+(* Failures reported by helper goroutines at the same time (Fail and the Error variants from
+   n >= 1 goroutines the body waits for; each is a read of tearingDown followed by an atomic store,
+   stepped in any order): once all of them are done the handle is marked failed, and its
+   teardown flag, phase and cleanups are what they were. *)
+Theorem C07_concurrent_marks : forall t n sched t' hs',
+  tearing t = false -> (1 <= n)%nat ->
+  hexec t (repeat HStart n) sched = (t', hs') -> all_done hs' = true ->
+  failed t' = true /\ tdfailed t' = tdfailed t /\ tearing t' = false /\ stack t' = stack t.
+Proof. exact concurrent_marks. Qed.
+Print Assumptions C07_concurrent_marks.
+
+Example C07_concurrent_marks_example :
+  hexec t_new (repeat HStart 3) [0; 1; 1; 2; 0; 2]%nat =
+  ({| failed := true; tdfailed := false; tearing := false; stack := [] |}, [HDone; HDone; HDone]) /\
+  all_done [HDone; HDone; HDone] = true.
+Proof. vm_compute. split; reflexivity. Qed.
 
 (* A failure inside a cleanup does not change the iteration's outcome. *)
 Example C07_example :
